@@ -29,6 +29,14 @@ FALLBACK = {
     'BoundedWriter_WritePadding': 'SLet (ESub ESize EIndex) (SCallChk (ELocal 0) (SAddIndex (ELocal 0) SRetOk))',
     'BoundedWriter_PushHandle': 'SRetCall (EConst 0)',
 }
+# BufferReader / PedanticBufferReader: no wrapped object; Read(begin, end) copies out of buffer_ at index_
+BUF_READN = ('SLet (EParam 1) (SLet (EParam 0) (SLet (EMul (ELocal 1) (ELocal 0)) (SIf (CGt (ELocal 2) (ESub ESize EIndex)) (SRetErr gen_ErrorStatus_ReadLimitReached) '
+             '(SWhenCopy (CGt (ELocal 2) (EConst 0)) EIndex (ELocal 2) (SAddIndex (ELocal 2) SRetOk)))))')
+FALLBACK_BUF = {}
+for _c in ('BufferReader', 'PedanticBufferReader'):
+    FALLBACK_BUF[_c + '_Ensure'] = 'SIf (CLt (ESub ESize EIndex) (EParam 0)) (SRetErr gen_ErrorStatus_ReadLimitReached) SRetOk'
+    FALLBACK_BUF[_c + '_ReadN'] = BUF_READN
+    FALLBACK_BUF[_c + '_Skip'] = 'SIf (CGt (EParam 0) (ESub ESize EIndex)) (SRetErr gen_ErrorStatus_ReadLimitReached) (SAddIndex (EParam 0) SRetOk)'
 
 
 class Unsupported(Exception):
@@ -51,7 +59,7 @@ def load(cls, header):
         o, i = dec.raw_decode(txt, i)
         objs.append(o)
     for o in objs:
-        if o.get('kind') == 'ClassTemplateDecl' and o.get('name') == cls:
+        if o.get('kind') in ('ClassTemplateDecl', 'CXXRecordDecl') and o.get('name') == cls and o.get('inner'):
             return o
     raise Unsupported('class template %s not found (%s)' % (cls, r.stderr[-300:]))
 
@@ -92,6 +100,12 @@ class Tr:
                     self.ptr_params.append(c['name'])
         self.typed = len(self.ptr_params) == 2
 
+    accessors = {}      # name -> translated body of the accessor in the class being read (filled by translate())
+
+    def accessor_ok(self, name):
+        want = {'remaining': 'ESub (ESize) (EIndex)', 'capacity': 'ESize'}[name]
+        return Tr.accessors.get(name) == want
+
     # ---- expressions
     def expr(self, e):
         e = strip(e)
@@ -109,6 +123,14 @@ class Tr:
             if e['name'] == 'index_':
                 return 'EIndex'
             raise Unsupported('member ' + e['name'])
+        if k == 'CXXMemberCallExpr' and len(e.get('inner', [])) == 1:
+            # the class's own accessors, by what they are defined to return
+            callee = strip(e['inner'][0])
+            if callee.get('kind') == 'MemberExpr' and strip(callee['inner'][0]).get('kind') == 'CXXThisExpr':
+                acc = {'remaining': 'ESub ESize EIndex', 'capacity': 'ESize'}.get(callee.get('name'))
+                if acc and self.accessor_ok(callee.get('name')):
+                    return acc
+            raise Unsupported('call of ' + str(callee.get('name')))
         if k == 'IntegerLiteral':
             return 'EConst %s' % e['value']
         if k == 'UnaryExprOrTypeTraitExpr' and e.get('name') == 'sizeof' and self.typed:
@@ -160,6 +182,27 @@ class Tr:
                 return self.expr(a)
         return 'EConst 0'
 
+    def copy_out(self, s):
+        """(offset, length) when s is `std::memcpy(begin, &buffer_[offset], length)`, else None"""
+        while s.get('kind') == 'CompoundStmt' and len(s.get('inner', [])) == 1:
+            s = s['inner'][0]
+        e = strip(s)
+        if e.get('kind') != 'CallExpr':
+            return None
+        callee = strip(e['inner'][0])
+        if not (callee.get('kind') == 'DeclRefExpr' and callee['referencedDecl']['name'] == 'memcpy') or len(e['inner']) != 4:
+            return None
+        dst, src, ln = (strip(x) for x in e['inner'][1:])
+        if not (dst.get('kind') == 'DeclRefExpr' and dst['referencedDecl']['name'] == 'begin'):
+            raise Unsupported('memcpy whose destination is not the caller\'s range')
+        if not (src.get('kind') == 'UnaryOperator' and src.get('opcode') == '&'):
+            raise Unsupported('memcpy source')
+        sub = strip(src['inner'][0])
+        base = strip(sub['inner'][0]) if sub.get('kind') == 'ArraySubscriptExpr' else {}
+        if not (base.get('kind') == 'MemberExpr' and base.get('name') == 'buffer_'):
+            raise Unsupported('memcpy source is not buffer_[...]')
+        return self.expr(sub['inner'][1]), self.expr(e['inner'][3])
+
     def enum_of(self, e):
         """the ErrorStatus enumerator a return statement constructs its status from"""
         found = []
@@ -195,6 +238,13 @@ class Tr:
             if e.get('kind') in ('CXXConstructExpr', 'InitListExpr') and not e.get('inner'):
                 return 'SRetOk'
             raise Unsupported('return of ' + str(e.get('kind')))
+        if k == 'IfStmt' and len(s['inner']) == 2 and self.copy_out(s['inner'][1]) is not None:
+            # if (c) std::memcpy(begin, &buffer_[off], len);   -- the bytes handed to the caller
+            off, ln = self.copy_out(s['inner'][1])
+            return 'SWhenCopy (%s) (%s) (%s) (%s)' % (self.cond(s['inner'][0]), off, ln, self.stmts(rest))
+        if self.copy_out(s) is not None:
+            off, ln = self.copy_out(s)
+            return 'SWhenCopy CTrue (%s) (%s) (%s)' % (off, ln, self.stmts(rest))
         if k == 'IfStmt':
             parts = s['inner']
             c = self.cond(parts[0])
@@ -244,6 +294,32 @@ def classify(cls, m):
         (('WriteN' if len(ptrs) == 2 else 'Write1') if n == 'Write' else None)
 
 
+def delegates_to_block_read(body):
+    """`return Read(byte, byte + 1);` — the one-byte read is the block read of one one-byte element"""
+    ss = body.get('inner', [])
+    if len(ss) != 1 or ss[0].get('kind') != 'ReturnStmt':
+        return False
+    found = []
+
+    def walk(n):
+        if isinstance(n, dict):
+            if n.get('kind') == 'CXXMemberCallExpr':
+                found.append(n)
+            for c in n.get('inner', []):
+                walk(c)
+    walk(ss[0])
+    if len(found) != 1:
+        return False
+    c = found[0]
+    callee = strip(c['inner'][0])
+    args = [strip(a) for a in c['inner'][1:]]
+    return (callee.get('kind') == 'MemberExpr' and callee.get('name') == 'Read' and len(args) == 2 and
+            args[0].get('kind') == 'DeclRefExpr' and args[0]['referencedDecl']['name'] == 'byte' and
+            args[1].get('kind') == 'BinaryOperator' and args[1].get('opcode') == '+' and
+            strip(args[1]['inner'][0]).get('kind') == 'DeclRefExpr' and strip(args[1]['inner'][0])['referencedDecl']['name'] == 'byte' and
+            strip(args[1]['inner'][1]).get('kind') == 'IntegerLiteral' and strip(args[1]['inner'][1]).get('value') == '1')
+
+
 def translate():
     defs, degraded = {}, []
     for cls, header, member in (('BoundedReader', 'bounded_reader.h', 'reader_'), ('BoundedWriter', 'bounded_writer.h', 'writer_')):
@@ -265,6 +341,45 @@ def translate():
                 defs[key] = t.stmts([body])
             except (Unsupported, KeyError, IndexError, TypeError) as e:
                 degraded.append('%s: %s' % (key, e))
+    for cls, header in (('BufferReader', 'buffer_reader.h'), ('PedanticBufferReader', 'pedantic_buffer_reader.h')):
+        try:
+            ms = methods(load(cls, header))
+        except Exception as e:
+            ms = []
+            degraded.append('%s: %s' % (cls, e))
+        seen = set()
+        deleg = False
+        Tr.accessors = {}
+        for m in ms:        # accessors first: `T f() const { return <expr>; }`
+            if m['name'] in ('remaining', 'capacity'):
+                try:
+                    body = [c for c in m['inner'] if c.get('kind') == 'CompoundStmt'][0]
+                    ret = body['inner'][0]
+                    if len(body['inner']) == 1 and ret.get('kind') == 'ReturnStmt':
+                        Tr.accessors[m['name']] = Tr(m, '-').expr(ret['inner'][0])
+                except (Unsupported, KeyError, IndexError, TypeError):
+                    pass
+        for m in ms:
+            ptrs = [c for c in m.get('inner', []) if c.get('kind') == 'ParmVarDecl' and c.get('type', {}).get('qualType', '').endswith('*')]
+            role = {'Ensure': 'Ensure', 'Skip': 'Skip'}.get(m['name']) or ({1: 'Read1', 2: 'ReadN'}.get(len(ptrs)) if m['name'] == 'Read' else None)
+            if not role or role in seen:
+                continue
+            seen.add(role)
+            key = '%s_%s' % (cls, role)
+            body = [c for c in m['inner'] if c.get('kind') == 'CompoundStmt'][0]
+            if role == 'Read1':
+                deleg = delegates_to_block_read(body)
+                continue
+            try:
+                defs[key] = Tr(m, '-').stmts([body])
+            except (Unsupported, KeyError, IndexError, TypeError) as e:
+                degraded.append('%s: %s' % (key, e))
+        defs[cls + '_Read1_delegates'] = 'true' if deleg else 'false'
+    for key in FALLBACK_BUF:
+        if key not in defs:
+            if not any(d.startswith(key) for d in degraded):
+                degraded.append('%s: method not found' % key)
+            defs[key] = FALLBACK_BUF[key]
     for key in FALLBACK:
         if key not in defs:
             if not any(d.startswith(key) for d in degraded):
@@ -278,6 +393,11 @@ def write(path):
     out = ['(* GenBounded.v — GENERATED by tools/nop2coq_bounded.py from /repo/include/nop/utility/bounded_reader.h and',
            '   bounded_writer.h on every run; do not edit.  One term of Imp.bstmt per method. *)',
            'From Nop Require Import Gen Imp.', 'Local Open Scope N_scope.', '']
+    for key in FALLBACK_BUF:
+        mark = '   (* degraded: outside the translated subset, defined by the pinned source\'s term *)' if any(d.startswith(key) for d in degraded) else ''
+        out.append('Definition gen_%s : bstmt :=%s\n  %s.' % (key, mark, defs[key]))
+    for cls in ('BufferReader', 'PedanticBufferReader'):
+        out.append('Definition gen_%s_Read1_delegates : bool := %s.   (* Read(uint8_t* byte) { return Read(byte, byte + 1); } *)' % (cls, defs[cls + '_Read1_delegates']))
     for key in FALLBACK:
         mark = '   (* degraded: outside the translated subset, defined by the pinned source\'s term *)' if any(d.startswith(key) for d in degraded) else ''
         out.append('Definition gen_%s : bstmt :=%s\n  %s.' % (key, mark, defs[key]))
@@ -291,6 +411,6 @@ def write(path):
 
 if __name__ == '__main__':
     d, g = translate()
-    for k in FALLBACK:
-        print(k, '=', d[k], '' if d[k] == FALLBACK[k] else '   <-- differs from the pinned term')
+    for k in list(FALLBACK) + list(FALLBACK_BUF) + ['BufferReader_Read1_delegates', 'PedanticBufferReader_Read1_delegates']:
+        print(k, '=', d[k])
     print('degraded:', g or 'none')
